@@ -64,6 +64,13 @@ impl<K, N, E> Node<K, N, E> {
         ensures *r == self.val()
     { unimplemented!() }
 }
+impl<K, N, E> Node<K, N, E> {
+    // R16: Rc::ptr_eq / Arc::ptr_eq on two handles: the same allocation has the same key (not conversely)
+    #[verifier::external_body]
+    pub fn same_cell(&self, other: &Self) -> (r: bool)
+        ensures r ==> self.k() == other.k()
+    { unimplemented!() }
+}
 impl<K, N, E> Clone for Node<K, N, E> {
     #[verifier::external_body]
     fn clone(&self) -> (r: Self)
@@ -119,3 +126,10 @@ impl SeqDoc {
             r.is_ok() ==> Ok::<Option<T>, ()>(r.unwrap()) == elem_of::<T>(old(self).doc(), old(self).pos()),
     { unimplemented!() }
 }
+
+// TRUSTED std spec (vstd has none): `map[key]` on a HashMap returns the stored value and panics when the key is absent
+#[verifier::external_body]
+pub fn hm_index<'a, K: Eq + Hash, V>(m: &'a HashMap<K, V>, k: &K) -> (r: &'a V)
+    requires vstd::std_specs::hash::obeys_key_model::<K>(), m@.contains_key(*k)
+    ensures *r == m@[*k]
+{ &m[k] }
